@@ -36,6 +36,7 @@ type Frame struct {
 	Seq    uint32 `json:"seq"`
 	ReqID  uint32 `json:"req"`
 	Parsed bool   `json:"parsed"`
+	AtMS   float64 `json:"at_ms"`
 }
 
 type Proxy struct {
@@ -45,6 +46,7 @@ type Proxy struct {
 	frames []Frame
 	plain  bool // sequence headers readable (None or Sign)
 	conns  []net.Conn
+	t0     time.Time
 }
 
 func NewProxy(target string, plain bool) (*Proxy, error) {
@@ -52,7 +54,7 @@ func NewProxy(target string, plain bool) (*Proxy, error) {
 	if err != nil {
 		return nil, err
 	}
-	p := &Proxy{ln: ln, target: target, plain: plain}
+	p := &Proxy{ln: ln, target: target, plain: plain, t0: time.Now()}
 	go p.serve()
 	return p, nil
 }
@@ -147,8 +149,10 @@ func (p *Proxy) pump(src, dst net.Conn, dir string) {
 		if _, err := io.ReadFull(src, b[8:]); err != nil {
 			return
 		}
+		fr := parseFrame(dir, b, p.plain)
+		fr.AtMS = float64(time.Since(p.t0).Microseconds()) / 1000
 		p.mu.Lock()
-		p.frames = append(p.frames, parseFrame(dir, b, p.plain))
+		p.frames = append(p.frames, fr)
 		p.mu.Unlock()
 		if _, err := dst.Write(b); err != nil {
 			return
@@ -245,8 +249,10 @@ func (s *Server) run() {
 			return
 		}
 		if msg.Err != nil {
+			// like server.channelBroker: an error from Receive ends the channel
 			s.addErr(msg.Err.Error())
 			s.reqs <- SrvReq{Err: msg.Err}
+			conn.Close()
 			return
 		}
 		r := msg.Request()
